@@ -868,12 +868,14 @@ def handleDexBatch (s : State) (chain : Nat) (nested : Bool) (remote : Option Ba
   | none => .ok s
   | some remote => dexBatchOn s (if nested then s.root else chain) nested remote blockHash
 
+/-- how many items of the next batch still fit into the locked one -/
+def canMove (lockedLen nextLen max : Nat) : Nat :=
+  if nextLen = 0 ∨ lockedLen ≥ max then 0 else min nextLen (max - lockedLen)
+
 /-- `IncludeSameBlockDex` for one stored locked batch -/
 def includeOne (s : State) (key : Nat) (b : Batch) : State :=
   if b.lockedHeight ≠ s.height then s else
   let n := getBatch s b.committee false
-  let canMove (lockedLen nextLen max : Nat) : Nat :=
-    if nextLen = 0 ∨ lockedLen ≥ max then 0 else min nextLen (max - lockedLen)
   let om := canMove b.orders.length n.orders.length Gen.Dex.MaxOrdersPerDexBatch
   let dm := canMove b.deposits.length n.deposits.length Gen.Dex.MaxDepositsPerDexBatch
   let wm := canMove b.withdrawals.length n.withdrawals.length Gen.Dex.MaxWithdrawsPerDexBatch
